@@ -318,6 +318,26 @@ func (el *eventloop) flush(c *conn) {
 	}
 }
 
+// FailFrag completes the request a fragment belongs to with an error reply (unless it is complete
+// already) and sends the replies that became deliverable to its client.
+func FailFrag(f *Frag, e codec.Error) {
+	deleteFromTimeoutQueue(f)
+	msg := f.Peer
+	if f.Owner == nil || msg == nil || f.Done || msg.Done {
+		return
+	}
+	msg.Error = e
+	msg.FragDoneNumber = len(msg.Body)
+	msg.RspBody = append(msg.RspBody[:0], e.Bytes()...)
+	msg.Done = true
+	for _, v := range msg.Body {
+		v.Done = true
+	}
+	if c, ok := f.Owner.(*conn); ok && c.opened {
+		c.loop.flush(c)
+	}
+}
+
 func (el *eventloop) write(c *conn) error {
 	iov := c.outboundBuffer.Peek(-1)
 	var (
@@ -400,6 +420,14 @@ func (el *eventloop) closeConn(c *conn, err error, closeType ConnCloseType) (rer
 			GlobalStats.ClientConnectionsClientErr.WithLabelValues().Inc()
 		}
 	case ConnServer:
+		// the requests whose fragments were queued on or sent over this connection will never be
+		// answered by redis: answer them with an error instead of leaving their clients waiting
+		for f := c.inFragQueue.head; f != nil; f = f.prev {
+			FailFrag(f, codec.ErrUnKnownProxyPoolConnError)
+		}
+		for f := c.outFragQueue.head; f != nil; f = f.prev {
+			FailFrag(f, codec.ErrUnKnownProxyPoolConnError)
+		}
 		el.eventHandler.OnSClosed(c, err)
 		el.addSConn(-1)
 		switch closeType {
